@@ -25,7 +25,8 @@ def history_request(case):
         n, k = len(case["threads"][0]), case.get("reenter", 0)
         if n and k:
             # a re-entrant dispose() from inside the action = calls of a second thread interleaved after the lock block
-            return {"op": "run", "cls": "disposable", "threads": [n, k], "sched": [0] + [1] * k + [0] * n}
+            return {"op": "run", "cls": "disposable", "threads": [n, k], "sched": [0] + [1] * k + [0] * n,
+                    "raises": case.get("raises", [])}
     if case["cls"] == "scheduled":
         # caller = thread 0; the k-th scheduled action runs on worker thread 1+k
         ops = case["threads"][0]
